@@ -9,7 +9,8 @@ where no order is defined: cartesian product).  The oracle states ~40 laws direc
 the implementation with itertools/builtins, independently of the model, on integer
 lists, nested lists, ragged matrices, pairs of lists and strings; all of them also on
 arguments that were looked at before the call and with the call repeated on the same
-objects (observed family, see OBS_KINDS / CALL_MODES)."""
+objects (observed family, see OBS_KINDS / CALL_MODES); the equality-defined and the
+fold-defined builtins also on lists whose items are of different kinds (see impl_mixed)."""
 from __future__ import annotations
 
 import collections
@@ -142,7 +143,11 @@ def _prior(name):
 CALL_MODES = ("once", "second", "second_pending", "first_late")
 # (observation kind or call mode) -> reason: left out of the committed oracle because the
 # UNCHANGED tree differs there (reported to the integrator as candidate defects)
-PENDING_FINDINGS = {}
+PENDING_FINDINGS = {
+    "find:spelling-twins": "find (ḟ) compares with the language's equality ⁼: a number is found at the position of the string that spells it "
+                           "(find([0, 0], '0') = 0, not -1) while count / contains on the same list say it is absent",
+    "group:spelling-twins": "group_consecutive (Ġ) compares neighbours with ⁼ and repeats the first item of a run: [0, '0'] gives [[0, 0]]",
+}
 
 
 def _outer_lazies(v):
@@ -448,6 +453,83 @@ def impl_chain_obs(item):
     return impl_chain(*item)
 
 
+# ---- lists of items of DIFFERENT KINDS: numbers, strings and lists side by side ---------
+# Input family added after seeded defects C16f-1 (counts rewritten with the language's own
+# equality, which merges a number with the string that spells it) and C16f-2 (product with a
+# "a zero factor decides" shortcut, wrong as soon as another factor is a list or a string).
+# Every other family hands a builtin items of ONE kind (numbers, or characters, or lists of
+# numbers), so "equal" and "spelled alike" coincide and every fold stays inside the numbers.
+# The laws quantify over every list, so two things are added, for ALL builtins of the check
+# whose definition depends on them and not for one element:
+#  (a) equality of items (uniquify, counts, count, contains, find, group): lists in which a
+#      value meets the DIFFERENT values that look like it: a number and the string that
+#      spells it (1 / "1", 1/2 / "1/2", 0 / "0" / ""), a list and the string that spells it
+#      ([1] / "[1]"), at the top level and inside sublists, with repeats of both, and queries
+#      for every member, the twin of every member and the bases.  Oracle: items are equal iff
+#      they are of the same kind and equal (numbers exactly), never across kinds.
+#  (b) the fold (sum, product, cumulative sums, deltas): lists mixing numbers (0 and 1, the
+#      absorbing / neutral elements, in every position) with nested lists and strings, where
+#      the element's own dyad vectorises / concatenates / repeats and the answer is a list or
+#      a string.  Oracle: the explicit left fold (scan, adjacent pairs) written out here with
+#      the repository's own dyadic element function (add, multiply, subtract) on a fresh copy.
+# Both run on every such list, in plain / LazyList representations.
+FOLD_WEIGHT_CAP = 10 ** 5      # product of the |numbers| of a list: bounds string repetition
+
+
+def fold_weight(l):
+    w = 1
+    for x in N.leaves_of(l):
+        if isinstance(x, int):
+            w *= max(1, abs(x))
+    return w
+
+
+def _fold_ref(dyad, l, pat, how):
+    """The defining fold, written out: how = fold (((a0 . a1) . a2) ...), scan (all its
+    prefixes' folds), pairs (dyad(a[i+1], a[i]))."""
+    from vyxal.context import Context
+    try:
+        ctx = Context()
+        items = list(build(l, pat))
+        if how == "pairs":
+            return canon([dyad(b, a, ctx) for a, b in zip(items, items[1:])])
+        acc, out = items[0], []
+        for x in items[1:]:
+            out.append(canon(acc) if how == "scan" else None)
+            acc = dyad(acc, x, ctx)
+        return canon(acc) if how == "fold" else out + [canon(acc)]
+    except Exception as e:  # noqa: BLE001
+        return Exc(type(e).__name__)
+
+
+def impl_mixed(item, obs=None):
+    l, xs, pat = item
+    from vyxal import elements as E
+    c = functools.partial(_call, mode=mode_of(obs))
+
+    def mk():
+        return observe(build(l, pat), obs_of(obs))
+    r = {"uniquify": c(E.uniquify, mk()), "counts": c(E.counts, mk()), "group": c(E.group_consecutive, mk()),
+         "reverse": c(E.reverse, mk()), "length": c(E.length, mk()), "uninterleave": c(E.uninterleave, mk()),
+         "queries": [(x, c(E.count_item, mk(), build(x)), c(E.contains, mk(), build(x)), c(E.find, mk(), build(x))) for x in xs]}
+    if l and fold_weight(l) <= FOLD_WEIGHT_CAP:
+        r["sum"] = (c(E.vy_sum, mk()), _fold_ref(E.add, l, pat, "fold"))
+        r["product"] = (c(E.product, mk()), _fold_ref(E.multiply, l, pat, "fold"))
+        r["cumsum"] = (c(E.cumulative_sum, mk()), _fold_ref(E.add, l, pat, "scan"))
+        r["deltas"] = (c(E.deltas, mk()), _fold_ref(E.subtract, l, pat, "pairs"))
+        lv = list(N.leaves_of(l))
+        # max / min: the fold of the leaves by the dyadic maximum / minimum; only over leaves of ONE kind: the language's
+        # order across kinds is not transitive ("7/2" > "10" as strings, 10 > 7/2 as numbers, each equal to its spelling)
+        if lv and len({kind_of(x) for x in lv}) == 1:
+            r["max"] = (c(E.monadic_maximum, mk()), _fold_ref(E.dyadic_maximum, lv, "p", "fold"))
+            r["min"] = (c(E.monadic_minimum, mk()), _fold_ref(E.dyadic_minimum, lv, "p", "fold"))
+    return r
+
+
+def impl_mixed_obs(item):
+    return impl_mixed(*item)
+
+
 # ----------------------------------------------------------------------------
 # inputs
 # ----------------------------------------------------------------------------
@@ -680,6 +762,87 @@ def chain_items(env):
             ops.append((op, par))
         out.append((start, pat, ops))
     return out
+
+
+# ---- lists of items of different kinds (see impl_mixed) ---------------------------------
+LIST_TWIN_BASES = ([], [1], [1, 2], [0, "0"], [[1], "1"])
+FOLD_ALPHA = (0, 1, 2, [1, 2], [[1], 2, 3], "ab", "1", [])      # neutral / absorbing numbers, lists, strings
+
+
+def kind_of(x):
+    return "list" if isinstance(x, list) else "str" if isinstance(x, str) else "num"
+
+
+def same_item(a, b):
+    """Equality of items: same kind and equal (specs: int, {"q": [p, q]} in lowest terms, str, list)."""
+    if kind_of(a) != kind_of(b):
+        return False
+    if isinstance(a, list):
+        return len(a) == len(b) and all(same_item(x, y) for x, y in zip(a, b))
+    return N.frac(a) == N.frac(b)
+
+
+def confusable(a, b):
+    """A number and the string that spells it (the language's own equality, element ⁼, calls them equal)."""
+    ka, kb = kind_of(a), kind_of(b)
+    return {ka, kb} == {"num", "str"} and N.spell(a) == N.spell(b)
+
+
+def distinct_items(l):
+    out = []
+    for x in l:
+        if not any(same_item(x, y) for y in out):
+            out.append(x)
+    return out
+
+
+def mixed_queries(l, bases=()):
+    """Items asked for in count / contains / find: members, the twin of every member (the
+    string that spells it; the base value a member string spells), an absent number and string."""
+    members = distinct_items(l)
+    pool = list(bases) + [x for x in members if not isinstance(x, str)]
+    twins = [N.spell(x) for x in members if not isinstance(x, str)] + [b for x in members if isinstance(x, str) for b in pool if N.spell(b) == x]
+    return distinct_items(members[:4] + twins[:4] + [7, "7"])
+
+
+def fold_list(rng, maxlen=5):
+    """Numbers (half of them 0 / 1), strings and nested lists of both in one list."""
+    def leaf():
+        r = rng.random()
+        if r < 0.3:
+            return rng.choice((0, 1))
+        if r < 0.6:
+            return rng.choice((-2, -1, 2, 3, 5, N.rat(1, 2), N.rat(-3, 4)))
+        return rng.choice(("", "a", "ab", "0", "1", "12", "-1", "1/2", "[1]"))
+
+    def sub(d):
+        return [sub(d + 1) if d < 3 and rng.random() < 0.25 else leaf() for _ in range(rng.randint(0, 3))]
+    return [sub(1) if rng.random() < 0.35 else leaf() for _ in range(rng.randint(1, maxlen))]
+
+
+def mixed_items(env):
+    rng = env.rng
+    lists = []          # (list, bases)
+    for b in N.TWIN_BASES + LIST_TWIN_BASES:        # every arrangement of a value and its twin
+        for n in range(2, env.budget(3, 4) + 1):
+            lists += [(list(t), [b]) for t in itertools.product((b, N.spell(b)), repeat=n)]
+        other = 1 if b != 1 else 2
+        lists += [(list(t), [b]) for t in itertools.product((b, N.spell(b), other), repeat=3) if other in t and env.thorough]
+    lists += [(list(l), []) for l in N.FIXED_TWIN_LISTS]
+    ntwin = len(lists)
+    for n in range(1, env.budget(3, 4) + 1):        # every short list over FOLD_ALPHA
+        lists += [(list(t), []) for t in itertools.product(FOLD_ALPHA, repeat=n)]
+    dense = len(lists)
+    out = [(l, mixed_queries(l, b), pat) for l, b in lists for pat in ("p", "l")]
+    for _ in range(env.budget(300, 2500)):
+        b = N.twin_bases(rng) + ([rng.choice(LIST_TWIN_BASES)] if rng.random() < 0.3 else [])
+        l = N.twin_list(rng, b, rng.randint(1, 3), 6)
+        out.append((l, mixed_queries(l, b), rng.choice(N.mixed_variants(l, rng, extra_random=1))))
+    for _ in range(env.budget(300, 2500)):
+        l = fold_list(rng)
+        out.append((l, mixed_queries(l), rng.choice(N.mixed_variants(l, rng, extra_random=1))))
+    return out, {"value_and_twin_arrangements": ntwin, "short_lists_over_fold_alphabet": dense - ntwin, "dense_each_as_list_and_LazyList": 2 * dense,
+                 "random_twin_lists": env.budget(300, 2500), "random_number_string_list_mixes": env.budget(300, 2500)}
 
 
 # ---- the observed family (see OBS_KINDS / CALL_MODES above) -----------------------------
@@ -1022,6 +1185,55 @@ class Oracle:
             self.check("transpose", "rectangular: zip(*rows)", inp, r["transpose"], [list(c) for c in zip(*m)])
             self.check("transpose", "rectangular: involution", inp, r["transpose2"], m)
 
+    # -- lists of items of different kinds (see impl_mixed) --------------------
+    def exact(self, builtin, law, inp, got, want, cls=None):
+        """Equal as values, kinds included (a string is not the list of its characters here:
+        both occur as items)."""
+        self.n[builtin] += 1
+        if isinstance(got, Exc) and isinstance(want, Exc):
+            return
+        if isinstance(got, Exc) or isinstance(want, Exc) or not same_item(N.unfrac(got), N.unfrac(want)):
+            self.fail({"builtin": builtin, "input": inp}, f"{builtin}: {law}: implementation gives {got!r}, the law requires {want!r}"[:600],
+                      cls or f"{builtin}:{law}")
+
+    def mixed(self, item, r, obs=None):
+        l, xs, pat = item
+        inp = with_obs(shown(l, pat), obs)
+        n = len(l)
+        uniq = distinct_items(l)
+        cnt = lambda x: sum(1 for y in l if same_item(x, y))  # noqa: E731
+        ex = lambda b, law, got, want: self.exact(b, law, inp, got, N.frac(want), cls=f"{b}:mixed kinds")  # noqa: E731
+        self.mixed_folds(inp, r)
+        if not _allowed("equality:fraction in a LazyList sublist") and "L[" in N.describe(l, pat or "p")[1:] \
+                and any(N.is_rat(y) for x in l if isinstance(x, list) for y in N.leaves_of(x)):
+            return
+        ex("uniquify", "first occurrences in order, items equal iff same kind and equal", r["uniquify"], uniq)
+        ex("counts", "[x, number of items equal to x] per first occurrence", r["counts"], [[x, cnt(x)] for x in uniq])
+        groups = []
+        for x in l:
+            if groups and same_item(groups[-1][-1], x):
+                groups[-1].append(x)
+            else:
+                groups.append([x])
+        if _allowed("group:spelling-twins") or not any(confusable(a, b) for a, b in zip(l, l[1:])):
+            ex("group", "runs of equal neighbours", r["group"], groups)
+        ex("reverse", "[::-1]", r["reverse"], l[::-1])
+        ex("length", "len()", r["length"], n)
+        ex("uninterleave", "[l[::2], l[1::2]]", r["uninterleave"], [l[::2], l[1::2]])
+        for x, c_, con, fnd in r["queries"]:
+            q = {"list": inp, "x": x}
+            self.exact("count", "number of items equal to x", q, c_, cnt(x), cls="count:mixed kinds")
+            self.exact("contains", "some item equals x", q, con, int(cnt(x) > 0), cls="contains:mixed kinds")
+            if _allowed("find:spelling-twins") or not any(confusable(x, y) for y in l):
+                self.exact("find", "first index of an item equal to x, or -1", q, fnd,
+                           next((i for i, y in enumerate(l) if same_item(x, y)), -1), cls="find:mixed kinds")
+
+    def mixed_folds(self, inp, r):
+        for b, law in (("sum", "left fold by add"), ("product", "left fold by multiply"), ("cumsum", "folds of the prefixes by add"),
+                       ("deltas", "subtract on adjacent items"), ("max", "fold of the leaves by dyadic maximum"), ("min", "fold of the leaves by dyadic minimum")):
+            if b in r and not isinstance(r[b][1], Exc):       # the dyad is defined on these items
+                self.exact(b, law + " (the element's own dyad, vectorising)", inp, r[b][0], r[b][1], cls=f"{b}:mixed kinds")
+
     def chain(self, item, r, obs=None):
         """Consumers on a nested value produced by other builtins (LazyLists inside plain
         lists inside LazyLists ...), relative to that value forced."""
@@ -1334,6 +1546,10 @@ def run(env, with_model=True):
                 "Observed family: all of these builtins again on arguments whose LazyLists were looked at before the call (head, truth, length, index k, has-index k, "
                 "iterated to k / fully, raw next k times, slice, listify, nested walk to k, forced, another builtin of the check applied first) and called two times on the same argument objects "
                 "(first answer read / unread / read late); expected answers are those of the denoted list. "
+                "Lists of items of different kinds: uniquify counts group count contains find reverse length uninterleave on lists where a value meets the different "
+                "values that look like it (a number / a list and the string that spells it, at every nesting level; items equal iff same kind and equal), and "
+                "sum product cumsum deltas (max min over leaves of one kind) == the left fold / scan / adjacent pairs written out with the repository's own dyad on lists mixing "
+                "numbers (0, 1 in every position) with strings and nested lists; both as lists and LazyLists, also observed / called repeatedly. "
                 "Non-trivial = non-empty input; distinct by (family, canonical input, representation).")
     V.import_repo()
     import vyxal.elements  # noqa: F401  (imported before forking)
@@ -1345,6 +1561,7 @@ def run(env, with_model=True):
     T, nt = tree_items(env)
     M, nm = matrix_items(env)
     C = chain_items(env)
+    X, x_dist = mixed_items(env)
     UR = evaluate(env, impl_unary, U, "unary builtins")
     SR = evaluate(env, impl_unary, S, "unary builtins (string)")
     BR = evaluate(env, impl_binary, B, "binary builtins")
@@ -1352,12 +1569,15 @@ def run(env, with_model=True):
     TR = evaluate(env, impl_tree, T, "flatten/max/min")
     MR = evaluate(env, impl_matrix, M, "transpose")
     CR = evaluate(env, impl_chain, C, "pipeline")
+    XR = evaluate(env, impl_mixed, X, "builtins on lists of numbers, strings and lists")
     # the observed family: oracle only (the model has no notion of an argument's state; the
     # expected answers are those of the list the argument denotes)
     OB, ob_dense = observed_items(env)
     OB["chain"] = observed_chains(env, C)
+    OB["mixed"] = [(it, random_spec(env.rng, [len(it[0])], 0.5 if lazy_somewhere(it[0], it[2]) else 0.0))
+                   for it in env.rng.sample(X, min(len(X), env.budget(200, 1500)))]
     OFN = {"unary": impl_unary_obs, "string": impl_unary_obs, "binary": impl_binary_obs, "tree": impl_tree_obs,
-           "matrix": impl_matrix_obs, "chain": impl_chain_obs}
+           "matrix": impl_matrix_obs, "chain": impl_chain_obs, "mixed": impl_mixed_obs}
     OBR = {g: evaluate(env, OFN[g], OB[g], f"{g} builtins, observed argument / repeated call") for g in OB}
 
     def live(items, res):
@@ -1370,6 +1590,7 @@ def run(env, with_model=True):
     T, TR = live(T, TR)
     M, MR = live(M, MR)
     C, CR = live(C, CR)
+    X, XR = live(X, XR)
 
     o = Oracle(env)
     for it, r in zip(U, UR):
@@ -1386,8 +1607,10 @@ def run(env, with_model=True):
         o.matrix(m, r)
     for c, r in zip(C, CR):
         o.chain(c, r)
+    for x, r in zip(X, XR):
+        o.mixed(x, r)
     before = sum(o.n.values())
-    OLAW = {"unary": o.unary, "string": o.unary, "binary": o.binary, "tree": o.tree, "matrix": o.matrix, "chain": o.chain}
+    OLAW = {"unary": o.unary, "string": o.unary, "binary": o.binary, "tree": o.tree, "matrix": o.matrix, "chain": o.chain, "mixed": o.mixed}
     for g in OB:
         OB[g], OBR[g] = live(OB[g], OBR[g])
         for (it, obs), r in zip(OB[g], OBR[g]):
@@ -1397,7 +1620,7 @@ def run(env, with_model=True):
 
     keys = ([f"u:{it[0]}:{it[3]}" for it in U if it[0]] + [f"s:{it[0]}" for it in S if it[0]] + [f"b:{a}|{b}|{pa}{pb}" for a, b, pa, pb in B if a or b]
             + [f"sb:{a}|{b}" for a, b, _, _ in SB if a or b] + [f"t:{t}:{pat}" for t, pat in T if t] + [f"m:{m}:{pat}" for m, pat in M if m]
-            + [f"c:{c}" for c, r in zip(C, CR) if not r.get("skipped")]
+            + [f"c:{c}" for c, r in zip(C, CR) if not r.get("skipped")] + [f"x:{it[0]}:{it[2]}" for it in X]
             + [f"o:{g}:{it}:{obs}" for g in OB for (it, obs), r in zip(OB[g], OBR[g]) if it[0] and not r.get("skipped")])
     env.count(sum(o.n.values()) + sum(stats.values()), keys)
     env.note("oracle_law_evaluations_per_builtin", dict(sorted(o.n.items())))
@@ -1431,6 +1654,15 @@ def run(env, with_model=True):
             "by_observation": dict(sorted(collections.Counter(ob[0] if ob else "none" for g in OB for _, sp in OB[g] for ob in sp["observe"]).items())),
             "by_call_mode": dict(sorted(collections.Counter(sp["call"] for g in OB for _, sp in OB[g]).items())),
             "law_evaluations": observed_evaluations},
+        "lists_of_numbers_strings_and_lists": dict(x_dist, **{
+            "what": "uniquify counts group count contains find (items equal iff same kind and equal) on lists where a value meets the string that spells it "
+                    "(bases %s and their spellings, awkward strings, at every nesting level); sum product cumsum deltas == the left fold / scan / adjacent pairs "
+                    "written out with the repository's add / multiply / subtract on lists mixing numbers (0, 1 ...) with strings and nested lists" % (list(N.TWIN_BASES + LIST_TWIN_BASES),),
+            "fold_alphabet": list(FOLD_ALPHA), "inputs": len(X), "with_a_value_and_its_twin_in_one_list": sum(1 for it in X if N.has_twin_pair(it[0])),
+            "with_a_number_and_a_list_or_string_at_top_level": sum(1 for it in X if len({kind_of(y) for y in it[0]}) > 1 and any(kind_of(y) == "num" for y in it[0])),
+            "with_0_or_1_and_a_non_number": sum(1 for it in X if any(y in (0, 1) for y in it[0] if kind_of(y) == "num") and any(kind_of(y) != "num" for y in it[0])),
+            "fold_builtins_run_on": sum(1 for r in XR if "product" in r), "queries": sum(len(it[1]) for it in X),
+            "by_representation": dict(sorted(collections.Counter(it[2] if isinstance(it[2], str) else "per-node random" for it in X).items()))}),
         "permutations_only_up_to_length": PERM_CAP, "powerset_only_up_to_length": POWER_CAP,
         "count/contains/find_queries_per_list": "first 4 distinct items + one absent value", "wrap_k": "0,1,2,3,n-1,n,n+1",
     })
